@@ -108,10 +108,11 @@ func (r *Raft) onVoteRequest(req *voteReq) (rpcResult, error) {
 	// a special flag to indicate this behavior:
 	// "I have permission to disrupt the leader—it told me to!"
 	if !req.transfer && r.leader != 0 {
-		if req.src == r.leader {
-			return success, nil
+		if req.src != r.leader {
+			return leaderKnown, nil
 		}
-		return leaderKnown, nil
+		// the node we know as leader is itself campaigning: vote as usual,
+		// so that a granted vote is recorded before it is reported
 	}
 
 	if req.term < r.term {
